@@ -1032,6 +1032,9 @@ def SharedCore_Retire : String :=
 def SharedCore_Here : String :=
   "Here(caller) { return Impl(caller) }"
 
+def SharedCore_Next : String :=
+  "Next(caller) { return Impl(caller) }"
+
 def SharedCore_SetCallback : String :=
   "SetCallback(callback) { return BaseCore::SetCallbackImpl<true>(callback) }"
 
@@ -1079,6 +1082,18 @@ def SharedPromise_dtor : String :=
 
 def MakeSharedContract : String :=
   "MakeSharedContract() { var core = MakeShared(kSharedRefWithFuture); var future = init(init(init(cast(init()), core.Get()))); var promise = init(init(init(cast(init()), core.Release()))); return init(move(future), move(promise)) }"
+
+def MakeSharedContractOn : String :=
+  "MakeSharedContractOn(e) { var core = MakeShared(kSharedRefWithFuture); e.IncRef(); core._executor.Reset(cast(init()), (&e)); var future = init(init(init(cast(init()), core.Get()))); var promise = init(init(init(cast(init()), core.Release()))); return init(move(future), move(promise)) }"
+
+def Split : String :=
+  "Split(future) { decl StaticAssertDecl; var [..] = MakeSharedContract(); Connect(move(future), move(p)); return move(f) } || Split(promise) { return init(init(promise.GetCore())) }"
+
+def Share : String :=
+  "Share(future) { var [..] = MakeContract(); Connect(future, move(p)); return move(f) } || Share(future, executor) { var [..] = MakeContractOn(executor); Connect(future, move(p)); return move(f) } || Share(promise) { var [..] = MakeContract(); Connect(promise, move(p)); return move(f) } || Share(promise, executor) { var [..] = MakeContractOn(executor); Connect(promise, move(p)); return move(f) }"
+
+def SharedFutureOn_On : String :=
+  "On(_) { return init(move(_core)) }"
 
 def SharedHandle_SetCallback : String :=
   "SetCallback(callback) { return core.SetCallbackImpl(callback) }"
@@ -1343,5 +1358,20 @@ def SetCallbacksDynamic : String :=
 
 def EventHelperCallback_Here : String :=
   "Here(caller) { return event.GetCall().Here(caller) }"
+
+def TraitSrc_type_traits_impl_hpp : String :=
+  "#pragma once #include <yaclib/fwd.hpp> #include <type_traits> namespace yaclib::detail { template <typename...> struct Head; template <typename T, typename... Args> struct Head<T, Args...> final { using Type = T; }; template <typename Func, typename... Args> struct IsInvocable final { static constexpr bool Value = std::is_invocable_v<Func, Args...>; }; template <typename Func> struct IsInvocable<Func, void> final { static constexpr bool Value = std::is_invocable_v<Func>; }; template <typename Func, typename... Args> struct Invoke final { using Type = std::invoke_result_t<Func, Args...>; }; template <typename Func> struct Invoke<Func, void> final { using Type = std::invoke_result_t<Func>; }; template <template <typename...> typename Instance, typename...> struct IsInstantiationOf final { static constexpr bool Value = false; }; template <template <typename...> typename Instance, typename... Args> struct IsInstantiationOf<Instance, Instance<Args...>> final { static constexpr bool Value = true; }; template <template <typename...> typename Instance, typename T> struct InstantiationTypes final { using Value = T; using Error = T; }; template <template <typename...> typename Instance, typename V, typename E> struct InstantiationTypes<Instance, Instance<V, E>> final { using Value = V; using Error = E; }; template <typename T> struct AsyncTypes final { using Value = T; using Error = T; }; template <typename V, typename E> struct AsyncTypes<FutureBase<V, E>> final { using Value = V; using Error = E; }; template <typename V, typename E> struct AsyncTypes<Future<V, E>> final { using Value = V; using Error = E; }; template <typename V, typename E> struct AsyncTypes<FutureOn<V, E>> final { using Value = V; using Error = E; }; template <typename V, typename E> struct AsyncTypes<SharedFutureBase<V, E>> final { using Value = V; using Error = E; }; template <typename V, typename E> struct AsyncTypes<SharedFuture<V, E>> final { using Value = V; using Error = E; }; template <typename V, typename E> struct AsyncTypes<SharedFutureOn<V, E>> final { using Value = V; using Error = E; }; }"
+
+def TraitSrc_type_traits_hpp : String :=
+  "#pragma once #include <yaclib/fwd.hpp> #include <yaclib/util/detail/type_traits_impl.hpp> #include <exception> #include <type_traits> #include <utility> #include <variant> namespace yaclib { template <typename T> using remove_cvref_t = std::remove_cv_t<std::remove_reference_t<T>>; template <typename... Args> using head_t = typename detail::Head<Args...>::Type; template <typename Func, typename... Arg> inline constexpr bool is_invocable_v = detail::IsInvocable<Func, Arg...>::Value; template <typename Func, typename... Arg> using invoke_t = typename detail::Invoke<Func, Arg...>::Type; template <typename T> inline constexpr bool is_result_v = detail::IsInstantiationOf<Result, T>::Value; template <typename T> using result_value_t = typename detail::InstantiationTypes<Result, T>::Value; template <typename T> using result_error_t = typename detail::InstantiationTypes<Result, T>::Error; template <typename T> using task_value_t = typename detail::InstantiationTypes<Task, T>::Value; template <typename T> using task_error_t = typename detail::InstantiationTypes<Task, T>::Error; template <typename T> inline constexpr bool is_future_base_v = detail::IsInstantiationOf<FutureBase, T>::Value || detail::IsInstantiationOf<Future, T>::Value || detail::IsInstantiationOf<FutureOn, T>::Value; template <typename T> inline constexpr bool is_shared_future_base_v = detail::IsInstantiationOf<SharedFutureBase, T>::Value || detail::IsInstantiationOf<SharedFuture, T>::Value || detail::IsInstantiationOf<SharedFutureOn, T>::Value; template <typename T> inline constexpr bool is_task_v = detail::IsInstantiationOf<Task, T>::Value; template <typename T> inline constexpr bool is_waitable_v = is_shared_future_base_v<remove_cvref_t<T>> || (!std::is_const_v<std::remove_reference_t<T>> && is_future_base_v<remove_cvref_t<T>>); template <typename T> inline constexpr bool is_waitable_with_timeout_v = (!std::is_const_v<std::remove_reference_t<T>> && is_future_base_v<remove_cvref_t<T>>); template <typename T> inline constexpr bool is_combinator_input_v = (is_shared_future_base_v<T> || is_future_base_v<T>); template <typename T> using async_value_t = typename detail::AsyncTypes<T>::Value; template <typename T> using async_error_t = typename detail::AsyncTypes<T>::Error; template <bool Condition, typename T> decltype(auto) move_if(T&& arg) noexcept { if constexpr (Condition) { return std::move(std::forward<T>(arg)); } else { return std::forward<T>(arg); } } template <typename T, typename... List> inline constexpr auto kCount = (std::size_t{std::is_same_v<T, List> ? 1 : 0} + ...); template <typename T, typename... Ts> inline constexpr auto kContains = (std::is_same_v<T, Ts> || ...); template <typename T, typename Tuple> struct Prepend; template <typename T, typename... Ts> struct Prepend<T, std::tuple<Ts...>> { using Type = std::tuple<T, Ts...>; }; template <typename Tuple> struct Tail; template <typename T, typename... Ts> struct Tail<std::tuple<T, Ts...>> { using Type = std::tuple<Ts...>; }; template <typename Tuple> using tail_t = typename Tail<Tuple>::Type; template <template <typename> typename F, typename Tuple> struct Filter; template <template <typename> typename F> struct Filter<F, std::tuple<>> { using Type = std::tuple<>; }; template <template <typename> typename F, typename T> struct Filter<F, std::tuple<T>> { using Type = std::conditional_t<F<T>::Value, std::tuple<T>, std::tuple<>>; }; template <template <typename> typename F, typename T, typename... Ts> struct Filter<F, std::tuple<T, Ts...>> { private: using PrevType = typename Filter<F, std::tuple<Ts...>>::Type; public: using Type = std::conditional_t<F<T>::Value, typename Prepend<T, PrevType>::Type, PrevType>; }; template <typename Tuple> struct Unique; template <> struct Unique<std::tuple<>> { using Type = std::tuple<>; }; template <typename T> struct Unique<std::tuple<T>> { using Type = std::tuple<T>; }; template <typename T, typename... Ts> struct Unique<std::tuple<T, Ts...>> { private: using PrevType = typename Unique<std::tuple<Ts...>>::Type; public: using Type = std::conditional_t<kContains<T, Ts...>, PrevType, typename Prepend<T, PrevType>::Type>; }; template <typename Tuple> struct Variant; template <typename... Ts> struct Variant<std::tuple<Ts...>> { using Type = std::variant<Ts...>; }; template <typename Tuple> struct MaybeVariant; template <typename T> struct MaybeVariant<std::tuple<T>> { using Type = T; }; template <typename... Ts> struct MaybeVariant<std::tuple<Ts...>> { using Type = std::variant<Ts...>; }; template <typename T> struct WrapVoid { using Type = T; }; template <> struct WrapVoid<void> { using Type = Unit; }; template <typename T> using wrap_void_t = typename WrapVoid<T>::Type; template <std::size_t FromIndex, std::size_t ToIndex, typename FromTuple, typename ToTuple> struct TranslateIndexImpl; template <std::size_t ToIndex, typename... From, typename... To> struct TranslateIndexImpl<0, ToIndex, std::tuple<From...>, std::tuple<To...>> { static_assert(sizeof...(From) >= sizeof...(To)); static constexpr std::size_t Index() { return ToIndex; } }; template <std::size_t FromIndex, std::size_t ToIndex, typename... From, typename... To> struct TranslateIndexImpl<FromIndex, ToIndex, std::tuple<From...>, std::tuple<To...>> { static_assert(sizeof...(From) >= sizeof...(To)); static_assert(FromIndex != 0); static constexpr std::size_t Index() { if constexpr (std::is_same_v<head_t<From...>, head_t<To...>>) { return TranslateIndexImpl<FromIndex - 1, ToIndex + 1, tail_t<std::tuple<From...>>, tail_t<std::tuple<To...>>>::Index(); } else { return TranslateIndexImpl<FromIndex - 1, ToIndex, tail_t<std::tuple<From...>>, std::tuple<To...>>::Index(); } } }; template <std::size_t FromIndex, typename FromTuple, typename ToTuple> inline constexpr std::size_t translate_index_v = TranslateIndexImpl<FromIndex, 0, FromTuple, ToTuple>::Index(); template <typename T, typename Tuple> struct IndexOf; template <typename T, typename... Ts> struct IndexOf<T, std::tuple<Ts...>> { static_assert(sizeof...(Ts) > 0); static constexpr std::size_t Index() { if constexpr (std::is_same_v<T, head_t<Ts...>>) { return 0; } else { return 1 + IndexOf<T, tail_t<std::tuple<Ts...>>>::Index(); } } }; template <typename T, typename Tuple> inline constexpr std::size_t index_of_v = IndexOf<T, Tuple>::Index(); template <typename T> constexpr bool Check() noexcept { static_assert(!std::is_reference_v<T>, \"T cannot be V&, just use pointer or std::reference_wrapper\"); static_assert(!std::is_const_v<T>, \"T cannot be const, because it's unnecessary\"); static_assert(!std::is_volatile_v<T>, \"T cannot be volatile, because it's unnecessary\"); static_assert(!is_result_v<T>, \"T cannot be Result, because it's ambiguous\"); static_assert(!is_future_base_v<T>, \"T cannot be Future, because it's ambiguous\"); static_assert(!is_task_v<T>, \"T cannot be Task, because it's ambiguous\"); static_assert(!std::is_same_v<T, std::exception_ptr>, \"T cannot be std::exception_ptr, because it's ambiguous\"); static_assert(!std::is_same_v<T, Unit>, \"T cannot be Unit, because Unit for internal instead of void usage\"); return true; } }"
+
+def ShareSrc_share_hpp : String :=
+  "#pragma once #include <yaclib/async/connect.hpp> #include <yaclib/async/contract.hpp> #include <yaclib/async/shared_future.hpp> #include <yaclib/exe/executor.hpp> namespace yaclib { template <typename V, typename E> Future<V, E> Share(const SharedFutureBase<V, E>& future) { auto [f, p] = MakeContract<V, E>(); Connect(future, std::move(p)); return std::move(f); } template <typename V, typename E> FutureOn<V, E> Share(const SharedFutureBase<V, E>& future, IExecutor& executor) { auto [f, p] = MakeContractOn<V, E>(executor); Connect(future, std::move(p)); return std::move(f); } template <typename V, typename E> Future<V, E> Share(SharedPromise<V, E>& promise) { YACLIB_ASSERT(promise.Valid()); auto [f, p] = MakeContract<V, E>(); Connect(promise, std::move(p)); return std::move(f); } template <typename V, typename E> FutureOn<V, E> Share(SharedPromise<V, E>& promise, IExecutor& executor) { YACLIB_ASSERT(promise.Valid()); auto [f, p] = MakeContractOn<V, E>(executor); Connect(promise, std::move(p)); return std::move(f); } }"
+
+def ShareSrc_split_hpp : String :=
+  "#pragma once #include <yaclib/async/connect.hpp> #include <yaclib/async/future.hpp> #include <yaclib/async/shared_contract.hpp> namespace yaclib { template <typename V, typename E> SharedFuture<V, E> Split(FutureBase<V, E>&& future) { static_assert(std::is_copy_constructible_v<Result<V, E>>, \"Cannot split this Result<V, E>\"); auto [f, p] = MakeSharedContract<V, E>(); Connect(std::move(future), std::move(p)); return std::move(f); } template <typename V, typename E> SharedFuture<V, E> Split(SharedPromise<V, E>& promise) { YACLIB_ASSERT(promise.Valid()); return SharedFuture<V, E>{promise.GetCore()}; } }"
+
+def ShareSrc_connect_hpp : String :=
+  "#pragma once #include <yaclib/async/future.hpp> #include <yaclib/async/promise.hpp> #include <yaclib/async/shared_future.hpp> #include <yaclib/async/shared_promise.hpp> namespace yaclib { template <typename V, typename E> void Connect(FutureBase<V, E>&& f, Promise<V, E>&& p) { static_assert(std::is_move_constructible_v<Result<V, E>>); YACLIB_ASSERT(f.Valid()); YACLIB_ASSERT(p.Valid()); YACLIB_ASSERT(f.GetCore() != p.GetCore()); if (f.GetCore()->SetCallback(*p.GetCore().Get())) { f.GetCore().Release(); p.GetCore().Release(); } else { std::move(p).Set(std::move(f).Touch()); } } template <typename V, typename E> void Connect(const SharedFutureBase<V, E>& f, Promise<V, E>&& p) { YACLIB_ASSERT(f.Valid()); YACLIB_ASSERT(p.Valid()); if (f.GetCore()->SetCallback(*p.GetCore().Get())) { p.GetCore().Release(); } else { std::move(p).Set(f.Touch()); } } template <typename V, typename E> void Connect(FutureBase<V, E>&& f, SharedPromise<V, E>&& p) { YACLIB_ASSERT(f.Valid()); YACLIB_ASSERT(p.Valid()); if (f.GetCore()->SetCallback(*p.GetCore().Get())) { f.GetCore().Release(); p.GetCore().Release(); } else { std::move(p).Set(std::move(f).Touch()); } } template <typename V, typename E> void Connect(const SharedFutureBase<V, E>& f, SharedPromise<V, E>&& p) { YACLIB_ASSERT(f.Valid()); YACLIB_ASSERT(p.Valid()); YACLIB_ASSERT(f.GetCore() != p.GetCore()); if (f.GetCore()->SetCallback(*p.GetCore().Get())) { p.GetCore().Release(); } else { std::move(p).Set(f.Touch()); } } template <typename V, typename E> void Connect(SharedPromise<V, E>& primary, Promise<V, E>&& subsumed) { YACLIB_ASSERT(primary.Valid()); YACLIB_ASSERT(subsumed.Valid()); auto subsumed_core = subsumed.GetCore().Release(); std::ignore = primary.GetCore()->SetCallback(*subsumed_core); } template <typename V, typename E> void Connect(SharedPromise<V, E>& primary, SharedPromise<V, E>&& subsumed) { YACLIB_ASSERT(primary.Valid()); YACLIB_ASSERT(subsumed.Valid()); auto subsumed_core = subsumed.GetCore().Release(); std::ignore = primary.GetCore()->SetCallback(*subsumed_core); } }"
 
 end Yaclib.Skeletons
